@@ -49,12 +49,21 @@ type project struct {
 // The objects of a project are created through every public constructor in turn (New with a string, New with a
 // byte slice, FromFile over fs.NewFile, New with bytes.Bytes): which one is a function of the text, so that a case
 // always builds the same way.
+// exactBytes is a private copy of the text without spare capacity behind it: a
+// library step that reslices beyond the end of its input panics instead of
+// silently reading what happens to follow in memory.
+func exactBytes(text string) []byte {
+	b := make([]byte, len(text))
+	copy(b, text)
+	return b[:len(b):len(b)]
+}
+
 func ctorMode(name, text string) int { return (len(name)*7 + len(text)) % 4 }
 
 func newJSchemaVia(name, text string) *jschema.JSchema {
 	switch ctorMode(name, text) {
 	case 1:
-		return jschema.New(name, []byte(text))
+		return jschema.New(name, exactBytes(text))
 	case 2:
 		return jschema.FromFile(fs.NewFile(name, text))
 	case 3:
@@ -66,7 +75,7 @@ func newJSchemaVia(name, text string) *jschema.JSchema {
 func newEnumVia(name, text string) *enum.Enum {
 	switch ctorMode(name, text) {
 	case 1:
-		return enum.New(name, []byte(text))
+		return enum.New(name, exactBytes(text))
 	case 2:
 		return enum.FromFile(fs.NewFile(name, []byte(text)))
 	}
@@ -76,7 +85,7 @@ func newEnumVia(name, text string) *enum.Enum {
 func newRegexVia(name, text string) *regex.RSchema {
 	switch ctorMode(name, text) {
 	case 1:
-		return regex.New(name, []byte(text))
+		return regex.New(name, exactBytes(text))
 	case 2:
 		return regex.FromFile(fs.NewFile(name, text))
 	}
@@ -194,24 +203,24 @@ func runEntries(text string, which entrySet, visit func(call)) (schemaConsumed i
 	if which&epSchema != 0 {
 		verifhook.ResetScanConsumed(verifhook.KindSchema)
 		visit(guardedSteps(verifhook.KindSchema, "JSchema.Len", text, func() (string, error) {
-			n, err := jschema.New("root", text).Len()
+			n, err := jschema.New("root", exactBytes(text)).Len()
 			return strconv.Itoa(int(n)), err
 		}))
 		var accepted bool
 		visit(guarded("JSchema.Check", text, func() (string, error) {
-			err := jschema.New("root", text).Check()
+			err := jschema.New("root", exactBytes(text)).Check()
 			accepted = err == nil
 			return "", err
 		}))
 		visit(guarded("JSchema.Example", text, func() (string, error) {
-			b, err := jschema.New("root", text).Example()
+			b, err := jschema.New("root", exactBytes(text)).Example()
 			return string(b), err
 		}))
 		visit(guarded("JSchema.GetAST", text, func() (string, error) {
-			return astString(jschema.New("root", text).GetAST())
+			return astString(jschema.New("root", exactBytes(text)).GetAST())
 		}))
 		visit(guarded("JSchema.UsedUserTypes", text, func() (string, error) {
-			l, err := jschema.New("root", text).UsedUserTypes()
+			l, err := jschema.New("root", exactBytes(text)).UsedUserTypes()
 			return strings.Join(l, ","), err
 		}))
 		schemaConsumed = verifhook.ScanConsumed(verifhook.KindSchema)
@@ -220,7 +229,7 @@ func runEntries(text string, which entrySet, visit func(call)) (schemaConsumed i
 			root := jschema.New("root", rootText)
 			added := false
 			visit(guarded("JSchema.AddType", text, func() (string, error) {
-				err := root.AddType("@t", jschema.New("@t", text))
+				err := root.AddType("@t", jschema.New("@t", exactBytes(text)))
 				added = err == nil
 				return "", err
 			}))
@@ -232,7 +241,7 @@ func runEntries(text string, which entrySet, visit func(call)) (schemaConsumed i
 		}
 		if accepted {
 			visit(guarded("openapi.JSchema", text, func() (string, error) {
-				s := jschema.New("root", text)
+				s := jschema.New("root", exactBytes(text))
 				if err := s.Check(); err != nil {
 					return "", err
 				}
@@ -262,21 +271,21 @@ func runEntries(text string, which entrySet, visit func(call)) (schemaConsumed i
 	}
 	if which&epEnum != 0 {
 		visit(guardedSteps(verifhook.KindEnum, "Enum.Len", text, func() (string, error) {
-			n, err := enum.New("@e", text).Len()
+			n, err := enum.New("@e", exactBytes(text)).Len()
 			return strconv.Itoa(int(n)), err
 		}))
-		visit(guarded("Enum.Check", text, func() (string, error) { return "", enum.New("@e", text).Check() }))
+		visit(guarded("Enum.Check", text, func() (string, error) { return "", enum.New("@e", exactBytes(text)).Check() }))
 		visit(guarded("Enum.Values", text, func() (string, error) {
-			vv, err := enum.New("@e", text).Values()
+			vv, err := enum.New("@e", exactBytes(text)).Values()
 			return fmt.Sprint(len(vv)), err
 		}))
-		visit(guarded("Enum.GetAST", text, func() (string, error) { return astString(enum.New("@e", text).GetAST()) }))
+		visit(guarded("Enum.GetAST", text, func() (string, error) { return astString(enum.New("@e", exactBytes(text)).GetAST()) }))
 		{
 			const rootText = `1 // {enum: @e}`
 			root := jschema.New("root", rootText)
 			added := false
 			visit(guarded("JSchema.AddRule", text, func() (string, error) {
-				err := root.AddRule("@e", enum.New("@e", text))
+				err := root.AddRule("@e", enum.New("@e", exactBytes(text)))
 				added = err == nil
 				return "", err
 			}))
@@ -288,27 +297,27 @@ func runEntries(text string, which entrySet, visit func(call)) (schemaConsumed i
 		}
 	}
 	if which&epRegex != 0 {
-		visit(guarded("RSchema.Check", text, func() (string, error) { return "", regex.New("r", text).Check() }))
+		visit(guarded("RSchema.Check", text, func() (string, error) { return "", regex.New("r", exactBytes(text)).Check() }))
 		visit(guarded("RSchema.Len", text, func() (string, error) {
-			n, err := regex.New("r", text).Len()
+			n, err := regex.New("r", exactBytes(text)).Len()
 			return strconv.Itoa(int(n)), err
 		}))
 		visit(guarded("RSchema.Example", text, func() (string, error) {
-			b, err := regex.New("r", text).Example()
+			b, err := regex.New("r", exactBytes(text)).Example()
 			return string(b), err
 		}))
-		visit(guarded("RSchema.GetAST", text, func() (string, error) { return astString(regex.New("r", text).GetAST()) }))
-		visit(guarded("RSchema.Pattern", text, func() (string, error) { return regex.New("r", text).Pattern() }))
+		visit(guarded("RSchema.GetAST", text, func() (string, error) { return astString(regex.New("r", exactBytes(text)).GetAST()) }))
+		visit(guarded("RSchema.Pattern", text, func() (string, error) { return regex.New("r", exactBytes(text)).Pattern() }))
 		visit(guarded("JSchema.AddType(regex)", text, func() (string, error) {
 			root := jschema.New("root", `"x" // {type: "@r"}`)
-			if err := root.AddType("@r", regex.New("@r", text)); err != nil {
+			if err := root.AddType("@r", regex.New("@r", exactBytes(text))); err != nil {
 				return "", err
 			}
 			_ = root.Check() // the example may not match the pattern: a value reason, not judged here
 			return "", nil
 		}))
 		visit(guarded("openapi.RSchema", text, func() (string, error) {
-			r := regex.New("r", text)
+			r := regex.New("r", exactBytes(text))
 			if err := r.Check(); err != nil {
 				return "", err
 			}
@@ -324,13 +333,13 @@ func runEntries(text string, which entrySet, visit func(call)) (schemaConsumed i
 				opts = append(opts, jdoc.AllowTrailingNonSpaceCharacters())
 				name = "Document(trailing)"
 			}
-			visit(guardedSteps(verifhook.KindJSONDoc, name+".Check", text, func() (string, error) { return "", jdoc.New("doc", text, opts...).Check() }))
+			visit(guardedSteps(verifhook.KindJSONDoc, name+".Check", text, func() (string, error) { return "", jdoc.New("doc", exactBytes(text), opts...).Check() }))
 			visit(guarded(name+".Len", text, func() (string, error) {
-				n, err := jdoc.New("doc", text, opts...).Len()
+				n, err := jdoc.New("doc", exactBytes(text), opts...).Len()
 				return strconv.Itoa(int(n)), err
 			}))
 			visit(guarded(name+".NextLexeme", text, func() (string, error) {
-				d := jdoc.New("doc", text, opts...)
+				d := jdoc.New("doc", exactBytes(text), opts...)
 				n := 0
 				for {
 					_, err := d.NextLexeme()
